@@ -273,23 +273,32 @@ func runComplete(seed uint64, thorough bool) {
 		for _, cfg := range configs {
 			N, T := cfg[0], cfg[1]
 			for L := 1; L <= 4; L++ {
-				completeRun(r, ids(N), T, L)
+				completeRun(r, ids(N), T, L, false)
 			}
+		}
+		// larger party counts (the sums of shares grow with n): one message vector, a few subsets each
+		large := [][2]int{{6, 2}, {8, 3}, {12, 2}, {12, 7}}
+		if thorough {
+			large = append(large, [2]int{16, 2}, [2]int{10, 10})
+		}
+		for _, cfg := range large {
+			completeRun(r, ids(cfg[0]), cfg[1], 1, true)
 		}
 		// party identifier sets other than 1..n (the rank of a party is its position in the list)
 		for si, idl := range idSets {
 			T := 2 + (si+round)%(len(idl)-1)
 			L := 1 + (si+round)%3
-			completeRun(r, idl, T, L)
+			completeRun(r, idl, T, L, false)
 			if thorough && T != 2 {
-				completeRun(r, idl, 2, L)
+				completeRun(r, idl, 2, L, false)
 			}
 		}
 	}
 }
 
 // completeRun: one key generation among the parties idl (identifiers in rank order) and everything after it.
-func completeRun(r *prng, idl []uint16, T, L int) {
+// few: one message vector and a handful of signer subsets (larger party counts).
+func completeRun(r *prng, idl []uint16, T, L int, few bool) {
 	N := len(idl)
 	order := identityOrder(N)
 	if r.chance(1, 2) { // another start (= delivery) order of the DKG
@@ -304,14 +313,23 @@ func completeRun(r *prng, idl []uint16, T, L int) {
 		return
 	}
 	verifier, verr := newVerifier(d)
-	for pi, pattern := range patterns[L] {
+	pats := patterns[L]
+	if few {
+		pats = pats[:1]
+	}
+	for pi, pattern := range pats {
 		s := runSession(d, pattern, r.next(), true, pi%2 == 1)
 		req := jStep{Kind: "request", N: N, T: T, L: L, Pattern: pattern, IDs: u16s(idl), Accept: s.okAll}
 		emit(req)
 		if !s.okAll {
 			continue
 		}
-		subs := subsets(N, T, N)
+		var subs [][]uint16
+		if few {
+			subs = fewSubsets(r, N, T)
+		} else {
+			subs = subsets(N, T, N)
+		}
 		// one subset also in reversed order (the prover takes any order of signers)
 		if len(subs) > 0 {
 			last := subs[len(subs)-1]
@@ -344,4 +362,35 @@ func completeRun(r *prng, idl []uint16, T, L int) {
 			emit(st)
 		}
 	}
+}
+
+// fewSubsets: the first t ranks, the last t ranks, a random t-subset, a random (t+1)-subset and everybody.
+func fewSubsets(r *prng, N, T int) [][]uint16 {
+	pick := func(k int) []uint16 {
+		perm := identityOrder(N)
+		for i := N - 1; i > 0; i-- {
+			j := r.intn(i + 1)
+			perm[i], perm[j] = perm[j], perm[i]
+		}
+		in := make([]bool, N)
+		for _, x := range perm[:k] {
+			in[x] = true
+		}
+		var res []uint16
+		for i := 0; i < N; i++ {
+			if in[i] {
+				res = append(res, uint16(i+1))
+			}
+		}
+		return res
+	}
+	first, last := make([]uint16, T), make([]uint16, T)
+	for i := 0; i < T; i++ {
+		first[i], last[i] = uint16(i+1), uint16(N-T+i+1)
+	}
+	res := [][]uint16{first, last, pick(T)}
+	if T+1 <= N {
+		res = append(res, pick(T+1))
+	}
+	return append(res, ids(N))
 }
